@@ -2,8 +2,9 @@
    reference semantics Structured.next_steps: simulation between the interpreter's State and the
    specification's state, event by event.
 
-   This file proves it for programs whose dialog flow contains no `do` (C14_compile_correct_partial);
-   the statement with subflow calls is kept visible in Props/C14.v. *)
+   This file proves it for programs whose dialog flow contains no `do` (compile_correct_nodo: at
+   most one live flow state); V1/Stack_proofs.v proves the full statement with subflow calls and
+   reuses the general lemmas of this file. *)
 From Coq Require Import ZArith QArith List String Bool Lia.
 From NG Require Import V1.Expr V1.Elems V1.Slide V1.Interp V1.Structured V1.Interp_proofs
                        V1.Code_proofs V1.Slide_proofs.
@@ -1002,8 +1003,8 @@ Definition steps_now (fuel : nat) (cs : configs) (h : list event) : res (list ou
   compute_next_steps opts_now fuel cs h.
 
 (* FULL STATEMENT (any structured program of the subset, subflow calls included).  Proved below
-   for dialog flows without `do` (compile_correct_partial); with `do` it is what the correspondence
-   check tests on every run and what the Examples at the end evaluate on a nested program. *)
+   for dialog flows without `do` (compile_correct_partial) and in full in V1/Stack_proofs.v
+   (compile_correct_full). *)
 Definition compile_correct_statement : Prop :=
   forall p fuel hist r,
     wf_prog p = true ->
